@@ -1,7 +1,7 @@
 (* C06 -- genuine defects of the pinned code, reproduced by the faithful model (witnesses checked by vm_compute) *)
 From Coq Require Import ZArith NArith Bool List.
 Import ListNotations.
-Require Import FV.Base.Util FV.Base.F64 FV.Base.PyVal FV.C01.Model FV.Gen.C06 FV.C06.Model FV.C06.Lemmas.
+Require Import FV.Base.Util FV.Base.F64 FV.Base.PyVal FV.C01.Model FV.Gen.C06 FV.C06.Model FV.C06.Lemmas FV.C06.LemmasBuild.
 
 Definition E0 : pyenv := {| int_of := []; b64_of := [] |}.
 Definition dbl : dtype := TFloat (fopp fmaxval) fmaxval fzero (fmk 4533471823554859 (-75)).
@@ -23,41 +23,57 @@ Definition mk_mod (accs : list acfg) : mcfg :=
 Definition state_of (n : list mcfg) : state :=
   match build n with Ok s => s | Err _ => {| s_mods := []; s_active := false; s_subs := [] |} end.
 
-(* finding C06/constant-read-malformed: c = Parameter('', FloatRange(), constant=2.5); "read m:_c" raises TypeError *)
+Definition is_data (r : reply) : bool := match r with RpData _ => true | _ => false end.
+Definition built (n : list mcfg) : bool := match build n with Ok _ => true | Err _ => false end.
+Definition reply3 (x : state * reply * list upd) : reply := snd (fst x).
+Definition upds3 (x : state * reply * list upd) : list upd := snd x.
+Definition state3 (x : state * reply * list upd) : state := fst (fst x).
+Definition desc_constant (d : option adesc) : option pyval :=
+  match d with Some (DP _ _ pd) => pd_constant pd | _ => None end.
+Definition is_some {A} (o : option A) : bool := match o with Some _ => true | None => false end.
+Definition rerr_is (r : reply) (e : rerr) : bool :=
+  match r, e with
+  | RpErr RNoPar, RNoPar | RpErr RNoMod, RNoMod | RpErr RNoCmd, RNoCmd | RpErr RReadOnly, RReadOnly => true
+  | RpErr (RExc a), RExc b => exc_eqb a b
+  | _, _ => false
+  end.
+
+Lemma built_state_of n : built n = true -> build n = Ok (state_of n).
+Proof. unfold built, state_of. destruct (build n); auto. discriminate. Qed.
+
+(* finding C06/constant-read-malformed: foo = Parameter('', FloatRange(), constant=2.5); "read m:_foo" raises TypeError *)
 Definition n_const : list mcfg := [mk_mod [mk_par s_foo dbl ExTrue None true (Some (PFloat two_half)) None]].
 
 Theorem refuted_constant_read :
-  exists n s m w g v pd c,
-    build n = Ok s /\ consistent s /\ described s m w = Some (DP g v pd) /\ pd_constant pd = Some c /\
-    do_read s m w <> RpData (with_qualifiers c) /\ do_read s m w = RpErr (RExc EType).
+  exists n m w c,
+    built n = true /\ consistent (state_of n) /\
+    opt_eqb pv_same (desc_constant (described (state_of n) m w)) (Some c) = true /\
+    do_read (state_of n) m w <> RpData (with_qualifiers c) /\ rerr_is (do_read (state_of n) m w) (RExc EType) = true.
 Proof.
-  exists n_const, (state_of n_const), s_m, s_ufoo, None, None,
-    {| pd_dt := dbl; pd_unit := []; pd_readonly := true; pd_constant := Some (PFloat two_half) |}, (PFloat two_half).
+  exists n_const, s_m, s_ufoo, (PFloat two_half).
   assert (R : do_read (state_of n_const) s_m s_ufoo = RpErr (RExc EType)) by (vm_compute; reflexivity).
-  repeat split; try (vm_compute; reflexivity).
-  - repeat constructor; simpl; auto.
-  - rewrite R. discriminate.
-  - exact R.
+  split; [vm_compute; reflexivity|]. split.
+  { apply (build_consistent n_const); [apply built_state_of; vm_compute; reflexivity| |].
+    - repeat constructor. simpl. tauto.
+    - apply no_cfg_export_settled. intros mc a [<-|[]] [<-|[]]. reflexivity. }
+  split; [vm_compute; reflexivity|]. split; [rewrite R; discriminate|rewrite R; reflexivity].
 Qed.
 
 (* finding C06/cfg-export-override, (a): foo = Param(export=False) in the configuration hides foo from the report,
-   but "read m:_foo", "change m:_foo" and "activate m:_foo" are still served *)
+   but "read m:_foo", "change m:_foo" and "activate m:_foo" are still served; the update carries no wire name *)
 Definition n_hidden : list mcfg :=
   [mk_mod [mk_par s_foo dbl ExTrue (Some ExFalse) false None (Some (PFloat two_half))]].
 
 Theorem refuted_undescribed_but_served :
-  exists n s m w,
-    build n = Ok s /\ described s m w = None /\
-    (exists v, do_read s m w = RpData v) /\
-    (exists s' v us, do_change E0 s m w (PInt 7) = (s', RpData v, us) /\ s' <> s) /\
-    (exists s' us, do_activate s (Some (m, Some w)) = (s', RpActive, us) /\ s_subs s' = [(m, Some w)] /\
-                   exists b, us = [{| u_mod := m; u_wire := None; u_body := b |}]).
+  exists n m w,
+    built n = true /\ described (state_of n) m w = None /\
+    is_data (do_read (state_of n) m w) = true /\
+    is_data (reply3 (do_change E0 (state_of n) m w (PInt 7))) = true /\
+    reply3 (do_activate (state_of n) (Some (m, Some w))) = RpActive /\
+    s_subs (state3 (do_activate (state_of n) (Some (m, Some w)))) = [(m, Some w)] /\
+    map (fun u => (u_mod u, u_wire u)) (upds3 (do_activate (state_of n) (Some (m, Some w)))) = [(m, None)].
 Proof.
-  exists n_hidden, (state_of n_hidden), s_m, s_ufoo.
-  split; [vm_compute; reflexivity|]. split; [vm_compute; reflexivity|]. split; [|split].
-  - eexists. vm_compute. reflexivity.
-  - eexists. eexists. eexists. split; [vm_compute; reflexivity|]. vm_compute. discriminate.
-  - eexists. eexists. split; [vm_compute; reflexivity|]. split; [reflexivity|]. eexists. reflexivity.
+  exists n_hidden, s_m, s_ufoo. repeat split; vm_compute; reflexivity.
 Qed.
 
 (* (b): bar = Param(export='baz'): described as "baz", but only reachable under the old name "_bar" *)
@@ -65,51 +81,45 @@ Definition n_renamed : list mcfg :=
   [mk_mod [mk_par s_bar dbl ExTrue (Some (ExName s_baz)) false None (Some (PFloat two_half))]].
 
 Theorem refuted_described_but_unreachable :
-  exists n s m w d,
-    build n = Ok s /\ described s m w = Some d /\ do_read s m w = RpErr RNoPar /\
-    (forall j, do_change E0 s m w j = (s, RpErr RNoPar, [])).
+  exists n m w,
+    built n = true /\ is_some (described (state_of n) m w) = true /\
+    do_read (state_of n) m w = RpErr RNoPar /\
+    (forall j, reply3 (do_change E0 (state_of n) m w j) = RpErr RNoPar).
 Proof.
-  exists n_renamed, (state_of n_renamed), s_m, s_baz. eexists.
-  split; [vm_compute; reflexivity|]. split; [vm_compute; reflexivity|]. split; [vm_compute; reflexivity|].
-  intros j. reflexivity.
+  exists n_renamed, s_m, s_baz. split; [vm_compute; reflexivity|]. split; [vm_compute; reflexivity|].
+  split; [vm_compute; reflexivity|]. intros j. vm_compute. reflexivity.
 Qed.
 
 (* finding C06/wire-name-collision: foo (export=True -> "_foo") and bar (export='_foo') in one module: two exported
-   accessibles, one entry in the report, two updates under the same specifier when the module is activated *)
+   accessibles, one entry in the report, two updates of different kinds under the same specifier on activation *)
 Definition n_collision : list mcfg :=
   [mk_mod [mk_par s_foo dbl ExTrue None false None (Some (PFloat two_half));
            mk_par s_bar (TString 0 8 false) (ExName s_ufoo) None false None (Some (PStr [116; 120; 116]%N))]].
+Definition body_kind (b : ubody) : nat :=
+  match b with UV (PFloat _) => 1 | UV (PStr _) => 2 | UV _ => 3 | UE => 4 | UX => 5 end.
 
 Theorem refuted_collision :
-  exists n s md us,
-    build n = Ok s /\ describe s = [(s_m, md)] /\ length (md_accs md) = 1%nat /\
-    length (filter (fun a => match wire_of true a with Some _ => true | None => false end) (mc_accs (hd (mk_mod []) n))) = 2%nat /\
-    snd (do_activate s (Some (s_m, None))) = us /\
-    map (fun u => (u_mod u, u_wire u)) us = [(s_m, Some s_ufoo); (s_m, Some s_ufoo)] /\
-    exists x y, map u_body us = [UV (PFloat x); UV (PStr y)].
+  exists n,
+    built n = true /\
+    map (fun e => (fst e, length (md_accs (snd e)))) (describe (state_of n)) = [(s_m, 1%nat)] /\
+    map (fun mc => length (filter (fun a => is_some (wire_of true a)) (mc_accs mc))) n = [2%nat] /\
+    map (fun u => (u_mod u, u_wire u, body_kind (u_body u))) (upds3 (do_activate (state_of n) (Some (s_m, None)))) =
+      [(s_m, Some s_ufoo, 1%nat); (s_m, Some s_ufoo, 2%nat)].
 Proof.
-  exists n_collision, (state_of n_collision). eexists. eexists.
-  split; [vm_compute; reflexivity|]. split; [vm_compute; reflexivity|]. split; [reflexivity|]. split; [reflexivity|].
-  split; [vm_compute; reflexivity|]. split; [reflexivity|]. eexists. eexists. reflexivity.
+  exists n_collision. repeat split; vm_compute; reflexivity.
 Qed.
 
 (* observation (not listed separately: every read of a constant is already malformed): a ScaledInteger(0.1) constant 2.5
    given in the class is exported once per Parameter.finish call and described as 2500 instead of 25 *)
 Definition sc01 : dtype := TScaled (fmk 3602879701896397 (-55)) fzero (of_Z 100).
+Definition n_scaled : list mcfg := [mk_mod [mk_par s_foo sc01 ExTrue None true (Some (PFloat two_half)) None]].
 Theorem observed_scaled_constant_reexported :
-  exists n s g v pd,
-    build n = Ok s /\ described s s_m s_ufoo = Some (DP g v pd) /\ pd_constant pd = Some (PInt 2500) /\
-    finish_const sc01 (PFloat two_half) = Ok (PInt 25).
-Proof.
-  exists [mk_mod [mk_par s_foo sc01 ExTrue None true (Some (PFloat two_half)) None]]. eexists. eexists. eexists. eexists.
-  split; [vm_compute; reflexivity|]. split; [vm_compute; reflexivity|]. split; vm_compute; reflexivity.
-Qed.
+  built n_scaled = true /\ desc_constant (described (state_of n_scaled) s_m s_ufoo) = Some (PInt 2500) /\
+  finish_const sc01 (PFloat two_half) = Ok (PInt 25).
+Proof. repeat split; vm_compute; reflexivity. Qed.
 
-(* finding C06/nan-constant-not-strict-json: FloatRange()(nan) is nan, it is put into the report as it is *)
+(* finding C06/nan-constant-not-strict-json: FloatRange()(nan) is nan, and it is put into the report as it is *)
+Definition n_nan : list mcfg := [mk_mod [mk_par s_foo dbl ExTrue None true (Some (PFloat fnan)) None]].
 Theorem refuted_nan_constant_described :
-  exists n s g v pd,
-    build n = Ok s /\ described s s_m s_ufoo = Some (DP g v pd) /\ pd_constant pd = Some (PFloat fnan).
-Proof.
-  exists [mk_mod [mk_par s_foo dbl ExTrue None true (Some (PFloat fnan)) None]]. eexists. eexists. eexists. eexists.
-  split; [vm_compute; reflexivity|]. split; vm_compute; reflexivity.
-Qed.
+  built n_nan = true /\ desc_constant (described (state_of n_nan) s_m s_ufoo) = Some (PFloat fnan).
+Proof. repeat split; vm_compute; reflexivity. Qed.
